@@ -7,11 +7,14 @@ hand-written model do not depend on the regenerated tables.
 namespace ShootVerif.NewFacts
 open ShootVerif
 
-/-- C11: json tags are read only under -json (one call site, whose condition starts with the flag), and makeJson reads
-    -json and -tagcase only -/
+/-- C11: json tags are read at exactly two places — for the struct's own fields under -json (condition starting with the
+    flag), and for promoted fields in extractStructFields (since cd682d2; unconditionally, the tag is only consulted by
+    makeJson) — and makeJson, the only consumer, returns at once without -json and reads -json and -tagcase only -/
 theorem C11_json_guard :
     (ctorCalls.filter (fun g => g.2.2.1 == "parseJSONTag")) =
-        [("internal/constructor", "extractTopFiels", "parseJSONTag", ["g.flags.json && f.Tag != nil"])] ∧
+        [("internal/constructor", "extractStructFields", "parseJSONTag", []),
+         ("internal/constructor", "extractTopFiels", "parseJSONTag", ["g.flags.json && f.Tag != nil"])] ∧
+    (ctorCalls.filter (fun g => g.2.1 == "makeJson")).all (fun g => g.2.2.2 == ["!(!g.flags.json)"]) = true ∧
     (ctorReads.filter (·.1 == "makeJson")).map (·.2) = ["json", "tagcase"] := by
   decide
 
